@@ -15,7 +15,11 @@ RULE = ("service (cases starting with OSvc: the manager of a REAL runservice.Sta
         "a 6 ms grace period; exhaustive-svc: every op sequence of length <= 2 (quick) / 4 (thorough) over an 8-op alphabet (create "
         "repeating, create panicking one-shot, cancel 0, wait, Start, release, Stop foreign, Stop by own task); random-svc: 2-30 ops "
         "with callback programs (cancel / create nested / panic / Stop). bare (owner = harness goroutine of a timer.NewTimerMgr()): "
-        "capacity: the queue channel (capacity 999) at and beyond capacity while the owner does not read it for 1.3-1.4 s (quick: 999 one-shots + a one-shot + a panicking repeating timer; 1100 mixed one-shot/repeating timers created in a loop (OCreateN); thorough adds 998/999/1000/1001/1500 one-shot and repeating timers with stalls of 1.6-3.5 s and cancels during the stall), then the owner drains everything and three more expiry+Do rounds: every timer must be delivered and run, one-shots once, repeating ones again and again; placement: every cancel placement (none / armed / expiry queued / inside own callback / after the first callback / "
+        "extreme durations (OCreateNs, nanoseconds, any int64): {0, -1 ns, -5 ms, math.MinInt64, 1 ns, 999999 ns, 1 ms, 1 ms + 1 ns, 2.5 ms, "
+        "1000 s, 100 years, MaxInt64 - 1 ms, - 1 ms + 1 ns, - 999999 ns, - 999998 ns, - 1 ns, MaxInt64} x {one-shot, repeating} x {panic or "
+        "not} x {three expiry+Do rounds, real wait then cancel, cancel at once, created late, Stop}, each with a repeating bystander: what "
+        "is due fires (never early, repeating ones once per round), a timer asked for >= 1000 s delivers nothing through the real waits "
+        "of the case, stays armed and can be cancelled (any callback of it counts as early); capacity: the queue channel (capacity 999) at and beyond capacity while the owner does not read it for 1.3-1.4 s (quick: 999 one-shots + a one-shot + a panicking repeating timer; 1100 mixed one-shot/repeating timers created in a loop (OCreateN); thorough adds 998/999/1000/1001/1500 one-shot and repeating timers with stalls of 1.6-3.5 s and cancels during the stall), then the owner drains everything and three more expiry+Do rounds: every timer must be delivered and run, one-shots once, repeating ones again and again; placement: every cancel placement (none / armed / expiry queued / inside own callback / after the first callback / "
         "second expiry queued / from another timer's callback with the target queued or re-armed / twice / unknown id / "
         "callback creates a timer / Stop) x {one-shot, repeating} x {callback panics or not} x {with, without a repeating "
         "bystander} x durations {0,1,3} ms, each followed by two more expiry+Do rounds and a 6 ms grace period; "
@@ -54,7 +58,10 @@ ASSUMPTIONS = [
     "run by the loop goroutine before that goroutine ends, or never; it must not run on any other goroutine, nor after the loop's end "
     "(theorems C14_callbacks_within_owner_life, C14_nothing_after_loop_end; reflect.Select makes the real loop do either)",
     "a callback that stops its own service does so before it arms anything (generator discipline; an expiry racing that Stop() is not observable)",
-    "durations fit time.Duration; timer ids do not wrap (uint64 counter)",
+    "durations are any time.Duration (int64 ns), including negative ones and math.MaxInt64; timer ids do not wrap (uint64 counter)",
+    "a timer asked for Model.far = 10^12 or more (ns: 1000 s; ms: 31 years) is 'never' on the time scale of a case: Settle / Wait do not "
+    "wait for it and the model does not expire it (C14_never_early_args covers every duration; the harness observes that nothing is "
+    "delivered during the real waits of the case)",
     "AddTimer with a duration <= 0 is a one-shot in timer.go (Obj.Duration > 0 decides re-arming); the theorems call a timer repeating iff rep && d > 0",
     "progress statements assume the queue channel (capacity 999) is not full and Mgr.Stop() has not been called",
 ]
